@@ -6,13 +6,13 @@ MANIFEST = dict(
          "the option promises (routing of sd / rms / sqrt(sd) / max-min / mean / 1, with the statistic routines as tagged oracles), one average and "
          "one scaling per column, option -1 copies and stores nothing; fit followed by apply on the same data agree on the zero-spread decision "
          "for every scaling value in the property's domain (spread >= 0.02 or exactly 0) and zero-spread columns become exactly 0; the column "
-         "min/max ignores missing-coded cells in any position and bounds/attains the remaining cells.",
+         "min/max ignores missing-coded cells in any position and bounds/attains the remaining cells; tensor preprocessing is matrix preprocessing applied block by block.",
     note="Bounded shapes. Numerical values of the transformed columns (unit standard deviation etc., zero column means) are floating-point "
-         "statements and not decided; statistic routines other than min/max enter as oracles; TensorPreprocess block-wise wiring not yet under contract.",
+         "statements and not decided; statistic routines other than min/max enter as oracles; ",
     technique="CBMC on the real preprocessing bodies with tagged oracle statistics; comparisons-only obligations on the real min/max; bounded shapes")
 
 META = dict(decided="option -> statistic routing; stored vector shapes; option -1 copy; zero-spread guard consistency fit/apply on the property's domain; min/max ignore missing cells",
-            not_decided="numerical column statistics of the transformed data; TensorPreprocess wiring; apply-path handling of missing cells",
+            not_decided="numerical column statistics of the transformed data; apply-path handling of missing cells",
             trusted_base=["tagged oracle statistics in harness/C10/prep.c"], assumptions=[])
 
 S = ["matrix.c", "vector.c", "memwrapper.c", "numeric.c", "tensor.c", "list.c"]
@@ -30,6 +30,11 @@ def jobs(tier):
     J.append(Job("zero_guard@any-scale", "C10/prep.c", entry="h_zero_guard", srcs=S, kind="bounded", defines={}, unwind=4, functions=["MatrixPreprocess"],
                  bound="1x1 matrix; scaling value symbolic in (-1e6, 1e6) (level scaling stores the column mean, which the spread domain does not restrict)", timeout=900,
                  clause="fit and apply make the same zero-spread decision for every stored scaling value"))
+    for order in ((1, 2, 3) if tier == "quick" else (1, 2, 3, 4)):
+        J.append(Job("TensorPreprocess@order=%d" % order, "C10/prep.c", entry="h_TensorPreprocess", srcs=S, kind="bounded", defines={"VC_TENSOR_JOB": None, "VC_ORD": order, "VC_R": 2},
+                     remove_bodies=["MatrixPreprocess"], stubs=["stubs/c10_stubs.c"], unwind=order + 4, functions=["TensorPreprocess"],
+                     bound="%d block(s) of different widths; option symbolic; MatrixPreprocess by recording contract" % order,
+                     clause="tensor preprocessing = matrix preprocessing block by block (operands, option, fresh statistics, list entries)"))
     for r in ((2, 3) if tier == "quick" else (1, 2, 3, 4)):
         J.append(Job("minmax@r=%d" % r, "C10/prep.c", entry="h_minmax", srcs=S, kind="bounded", defines={"VC_R": r, "VC_REAL_STATS": None}, unwind=r + 3,
                      functions=["MatrixColumnMinMax"], bound="%d rows, the missing code in any one row or none; values symbolic" % r,
